@@ -904,6 +904,14 @@ impl Xot {
                 "Cannot add children to non-element and non-document node".into(),
             ));
         }
+        // a node cannot be moved into itself or into one of its descendants.
+        // This has to be refused before anything (text consolidation) is
+        // touched, and indextree only guards against a direct self-insertion.
+        if self.ancestors(parent).any(|ancestor| ancestor == child) {
+            return Err(Error::InvalidOperation(
+                "Cannot move a node into itself or one of its descendants".into(),
+            ));
+        }
         match self.value_type(child) {
             ValueType::Document => {
                 return Err(Error::InvalidOperation("Cannot move document node".into()));
